@@ -68,7 +68,7 @@ NOT_APPLICABLE = {
 # properties whose check is planned in DESIGN.md but not built yet in this revision
 PENDING = {k: "check not built yet in this revision of /verif (planned, DESIGN.md §4); not claimed until it exists"
            for k in ["C04", "C05", "C07", "C08", "C12", "C14", "C16",
-                     "C17", "C18", "C19"]}
+                     "C18", "C19"]}
 
 
 def _add(p):
@@ -308,4 +308,31 @@ _add(Prop(
           "output is the true mean square for histories of any length on that grid; reset restores silence; next/current "
           "are the square root of the squared variants; the adaptor feeds each source frame once; and in the no_std build "
           "the approximate sqrt is within 7 % for f32 and f64.",
+))
+
+
+_add(Prop(
+    "C17", "c17_osc", "c17",
+    functions=["dasp_signal::{rate, Rate::const_hz, Rate::hz, ConstHz::step, Hz::step, phase, Phase::{next_phase, "
+               "next_phase_wrapped_to, next}, Sine::next, Saw::next, Square::next, Noise::{next_sample, next}, "
+               "NoiseSimplex::next_sample}", "dasp_signal::ops::f64::{sin, floor}"],
+    bounds="one frame from ANY stored phase in [0,1) (hook Phase::verif_from_state) and any finite step >= 0; saw, square "
+           "formulas and sine's call structure at every phase, sine's argument 2*pi*p at 8 concrete phases (every phase: "
+           "thorough); ConstHz step at 6 concrete (hz, rate) pairs (any pair: thorough); Hz pulls: 3 frames; noise: range "
+           "and no-panic for EVERY u64 seed (2 frames), clone/restart/shifted-seed agreement and the hash value at 6 "
+           "concrete seeds incl. u64::MAX; simplex: any stored phase in [0, 65536)",
+    outside="the phase ADVANCE 'next = (phase + step) wrapped into [0,1)': this Kani/CBMC evaluates float `%` to 0.0 "
+            "for every operand pair (measured), so nothing downstream of `%` is asserted by these harnesses; the simplex "
+            "amplitude bound |out| <= 1 (nine dependent symbolic f64 products with a 1.6e-4 margin); numeric accuracy of "
+            "sin; purity of noise at symbolic seeds (equivalence of two chains of symbolic 64-bit multipliers: > 900 s)",
+    stubs=["dasp_signal::ops::f64::sin -> recording marker returning a harness-chosen value in [-1,1] (sine_structure, "
+           "sine_argument_any_phase)"],
+    assumptions=["|sin(x)| <= 1 (CBMC's own model, or the marker's contract)"],
+    rules=[{"match": r"sine_argument_any_phase|const_hz_step_any", "tier": "thorough", "timeout": 3000}],
+    design_ref="DESIGN.md §4 C17",
+    claim="The solver shows for every finite non-negative step that the phase starts at 0, every yielded phase is the "
+          "stored one and the stored one stays in [0,1); exactly one step / frequency frame is consumed per output; "
+          "ConstHz/Hz steps are frequency/rate; saw == 1-2*phase and square == +-1 by half-cycle at every phase; sine is "
+          "sin evaluated once at 2*pi*phase and stays in [-1,1]; for every u64 seed noise lies in (-1,1], equals an "
+          "integer reference of the hash, and is a pure function of seed+index (clone, restart, shifted seed).",
 ))
